@@ -4,7 +4,7 @@
    reference decoding m" is the relation  msg_wf m /\ bytes = serialize p m  over the
    independent encoder of Wire/Pdu.v.  Statements only; proofs in Wire/*.v. *)
 From LibcoapV Require Import Base.Tactics Base.Bytes Wire.OptCodec Wire.OptCodecProofs Wire.Pdu
-  Wire.PduProofs Wire.ParseSound.
+  Wire.PduProofs Wire.ParseSound Wire.Frame Wire.FrameProofs.
 Local Open Scope Z_scope.
 
 (* soundness on datagram transports: accepted => well-formed, and the accessors' view is the
@@ -34,6 +34,15 @@ Theorem C03_complete : forall p m,
   msg_wf m -> parse p (serialize p m) = Some (norm_fields p m).
 Proof. exact parse_serialize. Qed.
 Print Assumptions C03_complete.
+
+(* stream framing (RFC 8323): coap_pdu_parse_size, which the TCP/TLS reader uses to cut the
+   byte stream, yields exactly the number of bytes that follow the header of a well-formed
+   message - token-length extension bytes, token, options, marker and payload *)
+Theorem C03_stream_frame_size : forall m,
+  msg_wf m -> len (content_area m) <= 65805 + 4294967295 ->
+  fr_parse_size TCP (serialize TCP m) = len (token_area (m_token m)) + len (content_area m).
+Proof. exact fr_parse_size_serialize. Qed.
+Print Assumptions C03_stream_frame_size.
 
 (* the reference decoding is unique *)
 Theorem C03_unique : forall m1 m2,
